@@ -777,20 +777,20 @@ theorem analyze_sound [DecidableEq M] {g : Game P M} (hg : GameOK g) (he : EvalO
     (hts : TableSound g s) :
     Sat (analyze g cfg o p s) (fun x => TableSound g x.2 ∧ VSound g p x.1.2.1) := by
   unfold analyze
-  have hget := ttGet_sound (s := { s with loads := 0, evals := 0, sorts := 0, rnds := 0 }) hts p
-  cases hg' : ttGet { s with loads := 0, evals := 0, sorts := 0, rnds := 0 } (g.hash p) with
+  have hget := ttGet_sound (s := { s with loads := 0, evals := 0, sorts := 0, rnds := 0, wlog := [] }) hts p
+  cases hg' : ttGet { s with loads := 0, evals := 0, sorts := 0, rnds := 0, wlog := [] } (g.hash p) with
   | error e => exact Sat.error
   | ok te =>
     have hte := hget te hg'
-    show Sat (analyzeFrom g cfg o p (seedOf te) { s with loads := 0, evals := 0, sorts := 0, rnds := 0 }) _
+    show Sat (analyzeFrom g cfg o p (seedOf te) { s with loads := 0, evals := 0, sorts := 0, rnds := 0, wlog := [] }) _
     unfold analyzeFrom
     have hseed := seedOf_sound p te hte
     have hloop := analyzeLoop_sound hg he hinj hpr hord p (seedOf te).1 (cfg.depth - (seedOf te).1).toNat 1
       ⟨(seedOf te).2.1, (seedOf te).2.2, { depth := (seedOf te).1 }, 0, 0⟩
-      { s with loads := 0, evals := 0, sorts := 0, rnds := 0 } hts hseed
+      { s with loads := 0, evals := 0, sorts := 0, rnds := 0, wlog := [] } hts hseed
     cases hr : analyzeLoop g cfg o p (seedOf te).1 (cfg.depth - (seedOf te).1).toNat 1
         ⟨(seedOf te).2.1, (seedOf te).2.2, { depth := (seedOf te).1 }, 0, 0⟩
-        { s with loads := 0, evals := 0, sorts := 0, rnds := 0 } with
+        { s with loads := 0, evals := 0, sorts := 0, rnds := 0, wlog := [] } with
     | error e => exact Sat.error
     | ok x =>
       obtain ⟨a, s'⟩ := x
